@@ -23,15 +23,19 @@ from models import hooks
 class Quartic:
     """nld(q) = offset + scale * (0.5 q^T A q + b * sum(q^4) + c.q)  (smooth, non-quadratic)."""
 
-    def __init__(self, A, b, c, offset=0.0, scale=1.0):
+    def __init__(self, A, b, c, offset=0.0, scale=1.0, nan_beyond=None):
         self.A = np.array(A, dtype=float)
         self.b = float(b)
         self.c = np.array(c, dtype=float)
         self.offset = float(offset)
         self.scale = float(scale)
+        # restricted support: the density is NaN (not an error) where q[0] exceeds this bound
+        self.nan_beyond = None if nan_beyond is None else float(nan_beyond)
 
     def nld(self, q):
         q = np.asarray(q, dtype=float)
+        if self.nan_beyond is not None and q[0] > self.nan_beyond:
+            return float("nan")
         return self.offset + self.scale * (
             0.5 * q @ self.A @ q + self.b * np.sum(q**4) + self.c @ q
         )
@@ -309,8 +313,37 @@ def mhp_wavy(q):
 def mhp_wavy_t(q):
     return mhp_wavy(q), jac_wavy(q), constr_wavy(q)
 
+_PL_T = 1e-2
+PLANES = np.array([[1.0, 0.0, 0, 0, 0, 0], [np.cos(_PL_T), np.sin(_PL_T), 0, 0, 0, 0]])
+
+
+def constr_planes(q):
+    """Two planes meeting at an angle of 1e-2 rad: a well-posed but ill-conditioned pair."""
+    return PLANES[:, : q.size] @ q - np.array([0.3, 0.3 * np.cos(_PL_T)])
+
+
+def jac_planes(q):
+    return PLANES[:, : q.size].copy()
+
+
+def jac_planes_t(q):
+    return jac_planes(q), constr_planes(q)
+
+
+def _mhp_planes(m):
+    return np.zeros(m.shape[1])
+
+
+def mhp_planes(q):  # noqa: ARG001
+    return _mhp_planes
+
+
+def mhp_planes_t(q):
+    return _mhp_planes, jac_planes(q), constr_planes(q)
+
 
 CONSTRAINTS = {
+    "planes": (constr_planes, jac_planes, jac_planes_t, mhp_planes, mhp_planes_t),
     "sphere": (constr_sphere, jac_sphere, jac_sphere_t, mhp_sphere, mhp_sphere_t),
     "two": (constr_two, jac_two, jac_two_t, mhp_two, mhp_two_t),
     "lin": (constr_lin, jac_lin, jac_lin_t, mhp_lin, mhp_lin_t),
@@ -340,6 +373,10 @@ def on_manifold_start(name: str, dim: int, variant: int = 0):
         q[0] = 0.5
         if variant % 3 == 1:
             q[0], q[1] = 0.1, 0.2
+        return q
+    if name == "planes":
+        q = np.array([0.3, 0.0, 0.4, -0.2, 0.1, 0.5])[:dim] * 1.0
+        q[2] = [0.4, -0.7, 0.0][variant % 3]
         return q
     if name == "wavy":
         q = np.array([0.3, 0.0, -0.4, 0.2, 0.1, 0.5])[:dim] * (1 if variant % 2 == 0 else -1)
